@@ -127,7 +127,9 @@ def gen(rng):
         'dirsalt': rng.randrange(1 << 30),
         'clock': {'start': now.strftime('%Y-%m-%dT%H:%M:%S.%f'), 'tick_us': rng.choice([0, 0, 137, 400000]),
                   # the simulated machine's zone: DeletionDate values are local times, so must be the 'now' they are compared with
-                  'utcoffset_s': rng.choice([0, 3600, -18000, 19800, 34200, 50400, -43200])},
+                  'utcoffset_s': rng.choice([0, 3600, -18000, 19800, 34200, 50400, -43200]),
+                  # does the zone have DST rules (time.daylight) and is DST in effect now (tm_isdst)? utcoffset_s is the offset in effect
+                  'dst': rng.choice([None, None, {'has': True, 'on': True}, {'has': True, 'on': False}])},
     }
 
 
